@@ -19,7 +19,7 @@ CHECKS["C13"] = dict(
         dict(name="H13b-e2e", pkgs=["./s3api"], entry="s3api.VfGetRangeE2E", redirects="spec/redirects_ctrl.json,spec/redirects_fs.json", reach=["responded"],
              key_trace=['"Range:']),
     ],
-    assumptions=["SMT solvers z3 4.8.12 (primary) and cvc5 1.0 --solve-bv-as-int=sum (fallback) are sound",
+    assumptions=["SMT solvers z3 5.1 (primary, z3-new) and cvc5 1.0 --solve-bv-as-int=sum (fallback) are sound",
                  "GoSE interprets go/ssa faithfully (validated by native replay of counterexamples and differential self-tests)"],
     outside=["numbers longer than the stated digit bound", "headers longer than the stated byte bound", "HTTP framing of the response body (fasthttp)",
              "H13b: objects longer than 3 (4) bytes, range numbers above 5, versioned reads, azure / s3proxy backends"],
